@@ -20,7 +20,36 @@ FLOORS = {"quick": {"normalise.alternation.armed": 8000, "normalise.sound_if_pai
 PITCHSETS = [(0, 1, 60, 61), (0, 1, 2), (60, 61), (1, 2, 3, 64), (2, 64)]
 
 
+def make_zero_length_case(rng, i):
+    """paired input with notes of length zero (note-on directly followed by its note-off) placed inside, at the start of, and
+    exactly on the final tick of a longer note of the same key, and on their own"""
+    c, k = rng.choice([0, 1]), rng.choice([60, 61])
+    a1, a2, b = rng.randint(1, 20), rng.randint(0, 20), rng.randint(0, 20)
+    where = rng.choice(["final_tick", "final_tick", "inside", "start", "alone", "other_key_on_final_tick"])
+    zero = [["on", c, k, 33], ["off", c, k]]
+    msgs = [["on", c, k, 90]]
+    if where == "start":
+        msgs += zero
+    msgs.append(["wait", a1])
+    if where == "inside":
+        msgs += zero + [["wait", a2 + 1]]
+    if where == "final_tick":
+        msgs += zero
+    if where == "other_key_on_final_tick":
+        msgs += [["on", c, k + 5, 33], ["off", c, k + 5]]
+    msgs.append(["off", c, k])
+    if where == "alone":
+        msgs += [["wait", 3]] + zero
+    if b:
+        msgs.append(["wait", b])
+    if rng.random() < 0.5:
+        msgs += [["on", 1 - c, 64, 70], ["wait", 6], ["off", 1 - c, 64]]
+    return {"msgs": msgs, "paired": True, "prefix": [], "zero_length": where}
+
+
 def make_case(rng, i, tier):
+    if i % 14 == 6:
+        return make_zero_length_case(rng, i)
     chans = rng.choice([(0,), (0, 1), (0, 1, 2), (1, 2)])
     pitches = rng.choice(PITCHSETS)
     msgs = []
@@ -85,6 +114,16 @@ def make_case(rng, i, tier):
                 msgs.insert(r2.randrange(msgs.index([x for x in msgs if x[:len(x) - 1] == m[:-1]][0]) + 1, len(msgs) + 1), m)
     prefix = [op for op in random_prefix(rng, n=(1, 2)) if op["op"] in ("copy", "read_abs", "read_rel", "set_channel", "pad", "scale", "iter_rel_velocity_edit", "transpose", "normalise", "concat_copy")] \
         if i % 5 == 4 else []
+    if i % 10 == 9:
+        # normalise, then an in-place edit (which may well make the sequence ill-formed again), then the call under test:
+        # whatever normalise remembers from its first run is stale by then
+        import random
+        r3 = random.Random(f"c07-again:{i}")
+        edit = r3.choice([{"op": "set_channel", "c": 0}, {"op": "set_channel", "c": 1},
+                          {"op": "concat_copy", "notes": [[r3.choice(chans), r3.choice(pitches), 3 * j, 9, 60 + j] for j in range(r3.randint(1, 3))]},
+                          {"op": "iter_rel_velocity_edit"}, {"op": "scale", "k": 2}, {"op": "pad", "n": 300},
+                          {"op": "transpose", "k": r3.choice([1, -1, 12])}])
+        prefix = [{"op": "normalise"}, edit]
     case = {"msgs": msgs, "paired": paired, "prefix": prefix}
     if i % 9 == 7 and not prefix:
         # the same motif joined by reference two to four times (the library's own concatenate and Bar.to_sequence share Message
@@ -96,6 +135,8 @@ def make_case(rng, i, tier):
 def run(case, ctx):
     from vmon.monitors import LOG
     s = gen.raw_rel_seq(case["msgs"])
+    if case.get("zero_length"):
+        LOG.n("c07.zero_length_note_input")
     if case.get("motif_times"):
         from scoda.sequences.sequence import Sequence
         motif = s
